@@ -581,6 +581,7 @@ impl SpeedLimitTrainSim {
 
         self.state.time += self.state.dt;
         self.state.offset += self.state.dt * vel_avg;
+        self.state.offset_back = self.state.offset - self.state.length;
         self.state.total_dist += (self.state.dt * vel_avg).abs();
         self.state.speed += vel_change;
         if utils::almost_eq_uom(&self.state.speed, &speed_target, None) {
